@@ -175,6 +175,11 @@ class C01System(BuilderSystem):
         return (tuple(st.last_lines), type(st.last_exc).__name__ if st.last_exc else None)
 
 
+def debug(system):
+    system.debug_log = True
+    return system
+
+
 def systems(tier):
     exact = (0, 1.5, -2)
     rough = (0, 0.26, -1.17)
@@ -187,6 +192,7 @@ def systems(tier):
             ("builder-relabelled-axes", C01System("builder-relabelled-axes", 4, exact, tracers=True, relabel={"X": "A", "Z": "W"}), 2, None),
             ("builder-bounded-with-rejections", C01System("builder-bounded-with-rejections", 5, exact, tracers=False, bounded=True), 3, None),
             ("builder-dp12", C01System("builder-dp12", 12, (0, 0.123456789012, -2.000000123456), tracers=True), 2, None),
+            ("builder-debug-logging", debug(C01System("builder-debug-logging", 5, exact)), 2, None),
         ]
     return [
         ("builder-dp0-integers", C01System("builder-dp0-integers", 0, (0, 120, -10), tracers=True), 3, None),
@@ -197,6 +203,7 @@ def systems(tier):
         ("builder-dp1-rounding", C01System("builder-dp1-rounding", 1, rough, tracers=True), 3, None),
         ("builder-dp1-rounding-notrace", C01System("builder-dp1-rounding-notrace", 1, rough, tracers=False), 4, None),
         ("core-dp5", C01System("core-dp5", 5, exact, cls=GCodeCore), 5, None),
+        ("builder-debug-logging", debug(C01System("builder-debug-logging", 5, exact)), 3, None),
     ]
 
 
